@@ -24,6 +24,11 @@ KINDS = {
            "spellings by current equivalents (np.r_ / np.c_ <-> concatenate / column_stack, dict(zip()) <-> comprehensions, os.path <-> pathlib, % / format <-> f-strings, "
            "np.int16(x) <-> x.astype(np.int16) where exactly equivalent), turn nested conditions into guard clauses, name magic numbers as module constants, and tidy "
            "imports - all without changing any result"),
+    "r5": ("performance optimisation without any change of behaviour",
+           "speed the code up or make it use less memory the way a careful maintainer would in a performance pull request - vectorise a Python loop, hoist loop invariants, "
+           "avoid a copy or a repeated read, re-use a preallocated buffer, precompute a table once, replace a generic call by a cheaper equivalent one, short-circuit a common case - "
+           "while every edge case (empty inputs, first / last block, odd and even lengths, negative or out-of-range indices, ties, dtype ranges) keeps producing exactly the same result; "
+           "keep scratch files small (well under 1 GB) and every run of demo.py under two minutes"),
 }
 if os.environ.get("TWIN_KINDS"):
     KINDS = {k: v for k, v in KINDS.items() if k in os.environ["TWIN_KINDS"].split(",")}
